@@ -14,11 +14,11 @@ struct RawOk { int gen; std::string msg; };
 struct RawTrace { int tracer; std::string file; unsigned long line; std::string msg; };
 
 enum Outcome { OC_NONE, OC_RET_INT, OC_RET_VOID, OC_RET_STR, OC_RET_REF, OC_THREW_FATAL, OC_THREW_FAULT,
-               OC_THREW_STD, OC_THREW_INT, OC_THREW_LOGIC, OC_THREW_OTHER, OC_FLAG, OC_DONE };
+               OC_THREW_STD, OC_THREW_INT, OC_THREW_LOGIC, OC_THREW_OTHER, OC_FLAG, OC_DONE, OC_THREW_USER };
 
 inline const char* outcome_name(int o) {
   static const char* n[] = {"none", "ret_int", "ret_void", "ret_str", "ret_ref", "threw_fatal_report", "threw_clause_fault",
-                            "threw_std", "threw_int", "threw_logic_error", "threw_other", "flag", "done"};
+                            "threw_std", "threw_int", "threw_logic_error", "threw_other", "flag", "done", "threw_user_type"};
   return n[o];
 }
 
